@@ -4,11 +4,23 @@ package azblobproxy
 // hash, storage mode (v1/v2 key function) and prefix.
 
 import (
+	"context"
 	"encoding/json"
 	"fmt"
+	"io"
+	"net/http"
+	"net/http/httptest"
 	"os"
 	"path/filepath"
+	"strings"
+	gosync "sync"
 	"testing"
+
+	"github.com/Azure/azure-sdk-for-go/sdk/azcore"
+	"github.com/Azure/azure-sdk-for-go/sdk/azcore/policy"
+	"github.com/Azure/azure-sdk-for-go/sdk/storage/azblob/container"
+
+	"github.com/buchgr/bazel-remote/v2/utils/backendproxy"
 
 	"github.com/buchgr/bazel-remote/v2/cache"
 	"github.com/buchgr/bazel-remote/v2/verifdrv/vlib"
@@ -69,3 +81,119 @@ func TestVfC20Names(t *testing.T) {
 	}
 	rep.Sample(map[string]interface{}{"tuples": len(got), "example": got["v2|p/q|cas|"+hashes[2]]})
 }
+
+// TestVfC20Wire: the names that actually go over the wire. An azBlobCache is
+// pointed at a local fake of the Azure Blob REST endpoint that records the
+// path of every request; Contains (HEAD), Get (GET) and UploadFile (PUT) must
+// all use one name per (mode, prefix, kind, hash), injective, and equal to
+// the golden table written from the pinned tree.
+func TestVfC20Wire(t *testing.T) {
+	rep := vlib.NewReport("C20", "E4:wire-names/azblobproxy")
+	defer rep.Write()
+	var mu gosync.Mutex
+	var seenPaths []string
+	srv := httptest.NewServer(http.HandlerFunc(func(w http.ResponseWriter, r *http.Request) {
+		_, _ = io.Copy(io.Discard, r.Body)
+		mu.Lock()
+		seenPaths = append(seenPaths, r.Method+" "+r.URL.EscapedPath())
+		mu.Unlock()
+		if r.Method == http.MethodPut {
+			w.WriteHeader(201)
+			return
+		}
+		w.Header().Set("x-ms-error-code", "BlobNotFound")
+		w.WriteHeader(404)
+	}))
+	defer srv.Close()
+	cc, err := container.NewClientWithNoCredential(srv.URL+"/thecontainer", &container.ClientOptions{
+		ClientOptions: azcore.ClientOptions{Transport: srv.Client(), Retry: policy.RetryOptions{MaxRetries: -1}, InsecureAllowCredentialWithHTTP: true}})
+	if err != nil {
+		rep.BrokenHarness("container client: %v", err)
+		return
+	}
+	take := func() []string {
+		mu.Lock()
+		defer mu.Unlock()
+		out := seenPaths
+		seenPaths = nil
+		return out
+	}
+	hashes := []string{
+		"0000000000000000000000000000000000000000000000000000000000000000",
+		"fffefdfcfbfaf9f8f7f6f5f4f3f2f1f0efeeedecebeae9e8e7e6e5e4e3e2e1e0",
+	}
+	prefixes := []string{"", "p", "p/q", "team/cache", "cas"}
+	kinds := []cache.EntryKind{cache.CAS, cache.AC, cache.RAW}
+	got := map[string]string{}
+	for _, v2 := range []bool{false, true} {
+		for _, pf := range prefixes {
+			c := &azBlobCache{containerClient: cc, storageAccount: "acct", container: "thecontainer", prefix: pf, v2mode: v2,
+				accessLogger: vlib.SilentLogger(), errorLogger: vlib.SilentLogger()}
+			if v2 {
+				c.objectKey = func(hash string, kind cache.EntryKind) string { return objectKeyV2(c.prefix, hash, kind) }
+			} else {
+				c.objectKey = func(hash string, kind cache.EntryKind) string { return objectKeyV1(c.prefix, hash, kind) }
+			}
+			seen := map[string]string{}
+			for _, k := range kinds {
+				for _, h := range hashes {
+					rep.Eval()
+					tuple := fmt.Sprintf("v2=%v|%s|%s|%s", v2, pf, k, h)
+					take()
+					_, _ = c.Contains(context.Background(), k, h, 10)
+					rc, _, _ := c.Get(context.Background(), k, h, 10)
+					if rc != nil {
+						_ = rc.Close()
+					}
+					c.UploadFile(backendproxy.UploadReq{Hash: h, LogicalSize: 3, SizeOnDisk: 3, Kind: k, Rc: vfRSC{strings.NewReader("abc")}})
+					paths := take()
+					names := map[string]bool{}
+					for _, p := range paths {
+						i := strings.Index(p, "/thecontainer/")
+						if i < 0 {
+							continue
+						}
+						names[p[i+len("/thecontainer/"):]] = true
+					}
+					if len(paths) < 3 || len(names) != 1 {
+						rep.Violate("C20 azblobproxy Contains / Get / UploadFile do not use one object name", fmt.Sprintf("%s: requests %v", tuple, paths), nil)
+						continue
+					}
+					var name string
+					for n := range names {
+						name = n
+					}
+					got[tuple] = name
+					if prev, dup := seen[name]; dup {
+						rep.Violate("C20 azblobproxy wire name not injective", fmt.Sprintf("%s and %s both use %q", prev, tuple, name), nil)
+					}
+					seen[name] = tuple
+					rep.Nontrivial(tuple)
+				}
+			}
+		}
+	}
+	golden := filepath.Join(os.Getenv("VERIF_DIR"), "golden", "names-azblobproxy-wire.json")
+	if os.Getenv("VERIF_PARAM_GOLDEN_WRITE") == "1" {
+		b, _ := json.MarshalIndent(got, "", " ")
+		_ = os.WriteFile(golden, b, 0o644)
+		return
+	}
+	raw, err := os.ReadFile(golden)
+	if err != nil {
+		rep.BrokenHarness("no golden table: %v", err)
+		return
+	}
+	want := map[string]string{}
+	_ = json.Unmarshal(raw, &want)
+	for tuple, w := range want {
+		if g, ok := got[tuple]; ok && g != w {
+			rep.Violate("C20 azblobproxy wire name differs from the names 2.x releases use", fmt.Sprintf("%s: %q, earlier releases: %q", tuple, g, w), nil)
+		}
+	}
+	rep.Sample(map[string]interface{}{"tuples": len(got), "example": got["v2=true|team/cache|cas|"+hashes[0]]})
+}
+
+type vfRSC struct{ *strings.Reader }
+
+func (vfRSC) Close() error { return nil }
